@@ -5,7 +5,7 @@ import ast
 
 from ..cfg import ENTRY, EXIT
 from ..core import AnalysisError, call_name, const_value, unparse, walk_no_nested
-from ..exprs import cmp_canon, conjuncts, p_and, p_atom, p_equiv, p_not, p_show, single_defs, to_prop
+from ..exprs import canon_unparse, cmp_canon, conjuncts, p_and, p_atom, p_equiv, p_not, p_show, single_defs, to_prop
 from ..selftest import B, M
 from .common import F_BASE, F_BC, F_DISC, F_MULTI, F_QUAL, F_QUAN, F_TYPE, calls, cfg_of, construct, discretizer_classes, loc, short
 from .grouped import _flatten_conditions
@@ -104,7 +104,7 @@ def rule_interval_lookup(ctx):
     ok = isinstance(masks, ast.ListComp) and isinstance(labels, ast.ListComp) and len(masks.generators) == 1 and len(labels.generators) == 1
     if ok:
         gm, gl = masks.generators[0], labels.generators[0]
-        ok = unparse(gm.iter) == unparse(gl.iter) and unparse(gm.target) == unparse(gl.target) and [unparse(c) for c in gm.ifs] == [unparse(c) for c in gl.ifs]
+        ok = unparse(gm.iter) == unparse(gl.iter) and unparse(gm.target) == unparse(gl.target) and [canon_unparse(c) for c in gm.ifs] == [canon_unparse(c) for c in gl.ifs]
         src = unparse(gm.iter)
         src = unparse(defs[src]) if src in defs else src
         ordered = src.startswith("values_orders[feature]") and "reversed" not in src and "[::-1]" not in src and "sorted" not in src
